@@ -291,7 +291,10 @@ impl<'a, 'tcx> D<'a, 'tcx> {
                 for (i, a) in args.iter().enumerate() {
                     let t = a.node.ty(&self.body.local_decls, tcx);
                     let t0 = match t.kind() { ty::Ref(_, inner, _) => *inner, _ => t };
-                    if let ty::Closure(cd, _) = t0.kind() {
+                    // a closure, or a plain function passed as a function value (`timer.start(d, stop_query)`)
+                    let fdef = match t0.kind() { ty::Closure(cd, _) => Some((*cd, false)), ty::FnDef(fd, _) => Some((*fd, true)), _ => None };
+                    if let Some((cd, is_fn)) = fdef {
+                        let cd = &cd;
                         let mut send = false;
                         for (clause, _) in tcx.predicates_of(*d).instantiate(tcx, gargs).into_iter() {
                             let clause = clause.skip_norm_wip();
@@ -305,6 +308,7 @@ impl<'a, 'tcx> D<'a, 'tcx> {
                         cl.push(J::obj()
                             .set("arg", J::Int(i as i128))
                             .set("closure", J::s(tcx.def_path_str(*cd)))
+                            .set("fn_item", J::Bool(is_fn))
                             .set("send", J::Bool(send)));
                     }
                 }
